@@ -195,6 +195,8 @@ def run(P, R, tier):
     pending_rule(P, R)
     modifyone_rule(P, R)
     saveends_rule(P, R)
+    savernull_rule(P, R)
+    rangeorder_rule(P, R)
 
 
 def writes_store(s):
@@ -797,3 +799,113 @@ def saveends_rule(P, R):
                                 "SAVE or cell left there, over entries the calculation never names" % (kind, line, kind), file=g["file"], line=line, function=g["q"])
     if n < 40:
         R.anchor_missing(RULE, "only %d assignments of save.n_<kind>_user" % n)
+
+
+def savernull_rule(P, R):
+    """"SAVE writes the calculated result under the given numbers": saver() calls x<kind>_save(n) and then copies entry n to n+1..m.  A
+    save function that returns early when the calculation has no entity of the kind (`if (use.Get_<kind>_ptr() == NULL) return`) has
+    stored nothing, so entry n is whatever was there before: the block of saver() that makes the copies must be closed by the same test.
+    (SAVE exchange 3-5 in a run without exchanger replaced EXCHANGE 4 by the old EXCHANGE 3.)"""
+    RULE = "C14.savernull"
+    R.rule(RULE, "saver(): copies of a saved entry over a range are made only under the test whose failure makes x<kind>_save store nothing", minimum=6)
+    sv = P.one("Phreeqc::saver")
+
+    def null_returns(fn):
+        """getter names g such that the function starts with `if (use.g() == NULL) return`"""
+        out = []
+        for st in (fn["body"][2] if fn["body"][0] == "Compound" else []):
+            if T.is_node(st) and st[0] == "If":
+                c = T.strip_casts(st[2])
+                body = st[3]
+                body = body[2][0] if T.is_node(body) and body[0] == "Compound" and len(body[2]) == 1 else body
+                if T.is_node(c) and c[0] == "Bin" and c[2] == "==" and T.is_node(body) and body[0] == "Return":
+                    for side in (c[3], c[4]):
+                        x = T.strip_casts(side)
+                        if T.is_node(x) and x[0] == "Call" and T.callee_name(x).startswith("Get_") and T.callee_name(x).endswith("_ptr"):
+                            out.append(T.callee_name(x))
+        return out
+    n = 0
+    for blk in (sv["body"][2] if sv["body"][0] == "Compound" else []):
+        if not (T.is_node(blk) and blk[0] == "If"):
+            continue
+        savers = [c for c in T.calls(blk[3]) if T.callee_q(c).startswith("Phreeqc::x") and T.callee_q(c).endswith("_save")]
+        copies = [c for c in T.calls(blk[3]) if T.callee_name(c) in ("Rxn_copy", "Rxn_copies")]
+        if not copies:
+            continue
+        n += 1
+        if not savers:
+            R.ok(RULE, "block@%d" % (blk[1] - sv["line"]), "copies an entity found by Rxn_find (no x<kind>_save in the block)")
+            continue
+        q = T.callee_q(savers[0])
+        inst = q.split("::")[-1]
+        fn = P.one(q)
+        need = null_returns(fn)
+        cond = "".join(T.text(blk[2], -40).split())
+        missing = [g for g in need if not ("%s()!=" % g in cond.replace("use.", "").replace("this.", "") or "%s()!=" % g in cond)]
+        if missing:
+            R.violation(RULE, inst, "%s returns without storing when use.%s() is NULL, but saver() copies entry n over the rest of the SAVE range (line %d) without that test: "
+                        "the entries are replaced by the old content of entry n" % (inst, missing[0], copies[0][1]), file=sv["file"], line=blk[1], function=sv["q"])
+        else:
+            R.ok(RULE, inst, "guarded by %s" % (", ".join(need) if need else "nothing to guard: the save function always stores"))
+    if n < 6:
+        R.anchor_missing(RULE, "saver(): only %d blocks that copy a saved entry" % n)
+
+
+def rangeorder_rule(P, R):
+    """"definitions and number ranges create entries" - in the order of the input, as a keyed store does: `X 1-3` followed by `X 2` leaves
+    entry 2 with the second definition.  That holds when the range n-m of a definition is expanded where the definition is read (the
+    readers of REACTION, MIX, REACTION_TEMPERATURE, REACTION_PRESSURE).  An expansion that is deferred to the calculation phase runs
+    after all input of the simulation has been read, in number order: the copy of entry 1 then replaces a later explicit definition of
+    entry 2 of the same simulation, which is skipped afterwards (new_def false).  Every expansion whose end is a definition's
+    Get_n_user_end() is located and classified by the function it is in."""
+    RULE = "C14.rangeorder"
+    R.rule(RULE, "the range n-m of a definition (end = Get_n_user_end()) is expanded by the reader of the definition, i.e. in input order", minimum=11)
+
+    def from_def_end(fn, e):
+        e = T.strip_casts(e)
+        if not T.is_node(e):
+            return False
+        if e[0] == "Call":
+            return T.callee_name(e) == "Get_n_user_end"
+        if e[0] == "Ref" and e[2] == "local":
+            for x in T.walk(fn["body"]):
+                if x[0] == "Bin" and x[2] == "=" and T.is_node(T.strip_casts(x[3])) and T.strip_casts(x[3])[0] == "Ref" and T.strip_casts(x[3])[3] == e[3]:
+                    if not from_def_end(fn, x[4]):
+                        return False
+                    found = True
+            decl = [d for x in T.walk(fn["body"]) if x[0] == "Decl" for d in x[2] if d[0] == e[3] and d[2] is not None]
+            assigned = [x for x in T.walk(fn["body"]) if x[0] == "Bin" and x[2] == "=" and T.is_node(T.strip_casts(x[3])) and T.strip_casts(x[3])[0] == "Ref"
+                        and T.strip_casts(x[3])[3] == e[3]]
+            srcs = [d[2] for d in decl] + [x[4] for x in assigned]
+            return bool(srcs) and all(T.is_node(T.strip_casts(y)) and T.strip_casts(y)[0] == "Call" and T.callee_name(T.strip_casts(y)) == "Get_n_user_end" for y in srcs)
+        return False
+
+    def map_name(a):
+        a = T.strip_casts(a)
+        t = T.text(a)
+        return t.split(".")[-1].split("->")[-1]
+    n = 0
+    for k, g in sorted(P.functions.items(), key=lambda kv: kv[1]["q"]):
+        if not g.get("body") or not g["q"].startswith("Phreeqc::"):
+            continue
+        sites = []
+        for c in T.calls(g["body"]):
+            if T.callee_name(c) == "Rxn_copies" and len(c[4]) == 3 and from_def_end(g, c[4][2]):
+                sites.append((map_name(c[4][0]), c[1]))
+        for lp in T.walk(g["body"]):
+            if lp[0] == "For" and T.is_node(lp[3]) and lp[3][0] == "Bin" and lp[3][2] in ("<=", "<") and from_def_end(g, lp[3][4]):
+                for c in T.calls(lp[5]):
+                    if T.callee_name(c) == "Rxn_copy":
+                        sites.append((map_name(c[4][0]), c[1]))
+                    elif T.callee_name(c) == "operator[]" and "_map" in T.text(c[4][0] if c[4] else c[3]):
+                        sites.append((map_name(c[4][0] if c[4] else c[3]), c[1]))
+        for m, line in sorted(set(sites)):
+            n += 1
+            fname = g["q"].split("::")[-1]
+            inst = "%s:%s" % (m, fname)
+            if fname.startswith("read_"):
+                R.ok(RULE, inst, "expanded by the reader (line %d): input order" % line)
+            else:
+                R.violation(RULE, inst, "the range of a %s definition is expanded in %s (line %d), after all input of the simulation has been read and in number order: `X 1-3` followed "
+                            "by `X 2` in one simulation loses the second definition" % (m.replace("Rxn_", "").replace("_map", ""), fname, line),
+                            file=g["file"], line=line, function=g["q"])
